@@ -867,7 +867,7 @@ def run(ctx) -> None:
     ctx.floor("C15.R14-the-later-layer-wins-whatever-its-value", n14, 4, "obligations on override_object re-used from the C04 analysis")
     lm = ctx.repo.module("python/experiment/model/conf.py").functions.get("FlowIRExperimentConfiguration.layer_many_variable_files")
     ctx.require(lm is not None, "anchor missing: layer_many_variable_files")
-    uses = any(last_attr(c_) == "override_object" for c_ in source.calls_in(lm, include_nested=True))
+    uses = any(isinstance(x_, ast.Attribute) and x_.attr == "override_object" for x_ in ast.walk(lm))      # called directly or through an alias
     ctx.ob("C15.R14-the-later-layer-wins-whatever-its-value", lm, uses,
            "layer_many_variable_files layers the files through override_object" if uses else
            "layer_many_variable_files no longer layers the files through override_object: the rule above does not cover the merge it uses",
